@@ -18,8 +18,9 @@ class Tree:
         ("single", neg, p) ("score", neg, p, s) ("minimum", neg, k, opts) ("cds", neg, items) ("group", neg, items)
         items: list of ("c", cond) | ("and", [cond...]) """
 
-    def __init__(self, rng):
+    def __init__(self, rng, strict=False):
         self.rng = rng
+        self.strict = strict        # only shapes the rule grammar can express (nothing but names/minscore/groups in cds)
 
     def cond(self, depth, in_cds):
         rng = self.rng
@@ -29,6 +30,8 @@ class Tree:
             return ("single", neg, rng.randrange(NPROF))
         if r < 0.47:
             return ("score", neg, rng.randrange(NPROF), rng.choice([0, 10, 10, 25, 50]))
+        if self.strict and in_cds and 0.47 <= r < 0.78:
+            r = 0.9
         if r < 0.60 and (not in_cds or rng.random() < 0.1):
             opts = rng.sample(range(NPROF), rng.randint(1, 4))
             return ("minimum", neg, rng.randint(1, 4), opts)
@@ -99,10 +102,12 @@ def leaves(tree):
     return sum(leaves(i[1]) if i[0] == "c" else sum(leaves(c) for c in i[1]) for i in tree[2])
 
 
-def gen_layout(rng):
+def gen_layout(rng, cutoff=None, n_genes=None):
     """ genes on a line or ring with gaps on the cutoff boundary; returns (cutoff, circular_origin, [(id, parts)]) """
-    cutoff = rng.choice([1, 5, 20, 20, 50])
-    n_genes = rng.choice([1, 2, 2, 3, 3, 4, 5, 7])
+    if cutoff is None:
+        cutoff = rng.choice([1, 5, 20, 20, 50])
+    if n_genes is None:
+        n_genes = rng.choice([1, 2, 2, 3, 3, 4, 5, 7])
     pos = rng.randint(0, 10)
     genes = []
     for i in range(n_genes):
@@ -147,7 +152,7 @@ def mk_location(parts):
     return fls[0] if len(fls) == 1 else CompoundLocation(fls)
 
 
-def gen_hits(rng, genes, scores):
+def gen_hits(rng, genes, scores, prefer=None):
     """ -> {gene id: [(profile, doubled bitscore)]}; some genes have no entry, some an empty list """
     results = {}
     for gid, _ in genes:
@@ -157,7 +162,8 @@ def gen_hits(rng, genes, scores):
         hits = []
         for _ in range(rng.choice([0, 1, 1, 2, 3])):
             base = rng.choice(scores)
-            hits.append((rng.randrange(NPROF), max(0, 2 * base + rng.choice([-1, 0, 0, 1, 20]))))
+            prof = rng.choice(prefer) if prefer and rng.random() < 0.8 else rng.randrange(NPROF)
+            hits.append((prof, max(0, 2 * base + rng.choice([-1, 0, 0, 1, 20]))))
         results[gid] = hits
     return results
 
@@ -178,8 +184,15 @@ RULE = ("random condition trees built through the rule_parser class constructors
         "model (fn 1) AND with the extracted specification holds/reasons/anc_spec (fn 2: a difference is a counterexample with "
         "its input).  Second stream: apply_cluster_rules on a real secmet Record with one constructor-built rule; the arguments "
         "of every rule.detect call are recorded and given to the model of the promotion loop (fn 3) and to its specification "
-        "(fn 4).  Non-trivial = the tree has >= 2 leaves and some gene other than the evaluated one is within the cutoff; "
-        "distinct by flat encoding")
+        "(fn 4).  HISTORIES: one rule object (parsed once from generated rule text, or built once through the constructors) "
+        "is asked about 2-4 arrangements that re-use the gene names (hits of single genes changed / swapped / genes moved, "
+        "dropped, re-ordered / fresh layout / identical repeat; same or fresh dict, feature and hit-list objects; genes asked "
+        "in position order, reversed, shuffled, one gene, a subset) and EVERY answer is compared with fn 5/6 (model / "
+        "specification of that rule, arrangement and gene alone); the same through apply_cluster_rules and "
+        "detect_protoclusters_and_signatures over 2-4 records with rules parsed once (fn 5-8), and the cutoff attribute over "
+        "parse + Ruleset constructions (fn 9).  Non-trivial = the tree has >= 2 leaves and some gene other than the evaluated "
+        "one is within the cutoff (detect), >= 2 genes recorded (apply), the answer for a gene name changed between two "
+        "arrangements although the gene's own hits did not (history); distinct by flat encoding")
 
 
 def enc_ctx(cutoff, circ, genes, hits):
@@ -317,6 +330,820 @@ def apply_rules_stream(chk, rng, trees, names, n_cases):
         chk.count("apply_hits_%d" % min(len(recorded), 4))
         chk.note_case(flat, len(recorded) >= 2, inputs[-1] if len(recorded) >= 2 and rng.random() < 0.01 else None)
     return cases, impl_outs, inputs
+
+
+# ------------------------------------------------------------------------------------------------
+# HISTORIES: one rule object (parsed ONCE from rule text, or built once through the constructors),
+# asked about a sequence of arrangements that re-use the same gene names.  Every single answer is
+# compared with the model's / the specification's value for that (rule, arrangement, gene) - the
+# model is pure, so that value is what the property demands whatever the object was asked before.
+# ------------------------------------------------------------------------------------------------
+SCORES = [0, 10, 25, 50]
+
+
+def tree_text(tree):
+    """ rule-grammar text of a condition tree """
+    kind = tree[0]
+    neg = "not " if tree[1] else ""
+    if kind == "single":
+        return f"{neg}{pname(tree[2])}"
+    if kind == "score":
+        return f"{neg}minscore({pname(tree[2])}, {tree[3]})"
+    if kind == "minimum":
+        return f"{neg}minimum({tree[2]}, [{', '.join(pname(o) for o in tree[3])}])"
+    inner = items_text(tree[2])
+    return f"{neg}cds({inner})" if kind == "cds" else f"{neg}({inner})"
+
+
+def items_text(items):
+    return " or ".join(tree_text(i[1]) if i[0] == "c" else " and ".join(tree_text(c) for c in i[1]) for i in items)
+
+
+def reflect(cond, names):
+    """ the tree of a condition OBJECT, read off its attributes (so that the model is given what the parser really
+        built, whatever normalisation it applies: the parser itself is C02's subject) """
+    from antismash.common.hmm_rule_parser import rule_parser as rp
+    if isinstance(cond, rp.SingleCondition):
+        return ("single", bool(cond.negated), names[cond.name])
+    if isinstance(cond, rp.ScoreCondition):
+        return ("score", bool(cond.negated), names[cond.name], int(cond.score))
+    if isinstance(cond, rp.MinimumCondition):
+        return ("minimum", bool(cond.negated), int(cond.count), sorted(names[o] for o in cond.options))
+    items = []
+    subs = cond.sub_conditions
+    if any(op != rp.TokenTypes.OR for op in subs[1::2]):
+        raise ValueError("unexpected operator in an or-list")
+    for sub in subs[::2]:
+        if isinstance(sub, rp.AndCondition):
+            items.append(("and", [reflect(o, names) for o in sub.sub_conditions[::2]]))
+        else:
+            items.append(("c", reflect(sub, names)))
+    return ("cds" if isinstance(cond, rp.CDSCondition) else "group", bool(cond.negated), items)
+
+
+def tree_profiles(tree):
+    if tree[0] in ("single", "score"):
+        return {tree[2]}
+    if tree[0] == "minimum":
+        return set(tree[3])
+    out = set()
+    for item in tree[2]:
+        for c in ([item[1]] if item[0] == "c" else item[1]):
+            out |= tree_profiles(c)
+    return out
+
+
+def has_kind(tree, kind):
+    if tree[0] == kind:
+        return True
+    if tree[0] in ("single", "score", "minimum"):
+        return False
+    return any(has_kind(c, kind) for item in tree[2] for c in ([item[1]] if item[0] == "c" else item[1]))
+
+
+def directed_tree(rng):
+    """ an anchoring part next to a part that a NEIGHBOUR can decide (plain or negated cds(...), name, minscore,
+        minimum), joined by and/or in either order: the shapes in which the answer at a gene changes although the
+        gene's own hits do not """
+    a, b, c, d = rng.sample(range(NPROF), 4)
+    n = lambda: rng.random() < 0.4
+    anchor = rng.choice([
+        ("single", False, a),
+        ("group", False, [("c", ("single", False, a)), ("c", ("single", False, d))]),
+        ("minimum", False, 1, sorted([a, d])),
+        ("score", False, a, 10),
+    ])
+    inner = rng.choice([
+        [("and", [("single", False, b), ("single", False, c)])],
+        [("and", [("single", False, b), ("single", True, c)])],
+        [("and", [("single", True, b), ("single", True, c)])],
+        [("c", ("single", False, b)), ("c", ("score", False, c, 10))],
+        [("and", [("single", False, b), ("score", False, c, 25)])],
+        [("and", [("single", False, b), ("group", n(), [("c", ("single", False, c)), ("c", ("single", False, d))])])],
+    ])
+    other = rng.choice([
+        ("cds", n(), inner), ("cds", n(), inner), ("cds", n(), inner),
+        ("single", n(), b), ("score", n(), b, 25), ("minimum", n(), 2, sorted([b, c])),
+        ("group", n(), [("and", [("single", False, b), ("single", False, c)])]),
+    ])
+    parts = [anchor, other]
+    if rng.random() < 0.5:
+        parts.reverse()
+    if rng.random() < 0.75:
+        return ("group", False, [("and", parts)])
+    return ("group", False, [("c", parts[0]), ("c", parts[1])])
+
+
+def one_hit(rng, profs):
+    base = rng.choice(SCORES)
+    prof = rng.choice(profs) if profs and rng.random() < 0.85 else rng.randrange(NPROF)
+    return (prof, max(0, 2 * base + rng.choice([-1, 0, 0, 1, 20])))
+
+
+def mutate_gene_hits(rng, hits, gid, profs):
+    """ changes the hits of one gene: lose all, lose/gain single profiles of the rule, re-score """
+    r = rng.random()
+    old = list(hits.get(gid, []))
+    if r < 0.12:
+        hits.pop(gid, None)
+        return
+    if r < 0.2:
+        hits[gid] = []
+        return
+    new = [h for h in old if rng.random() < 0.6]
+    present = {p for p, _ in new}
+    for prof in profs:
+        if prof not in present and rng.random() < 0.4:
+            new.append(one_hit(rng, [prof]))
+    if rng.random() < 0.3:
+        new = [(p, one_hit(rng, [p])[1]) for p, _ in new]
+    if new == old:
+        new = old[1:] if old else [one_hit(rng, profs)]
+    hits[gid] = new
+
+
+def next_arrangement(rng, arr, cutoff, profs):
+    """ the next arrangement of a history: same gene names, something changed (label says what) """
+    circ, genes, hits = arr["circ"], list(arr["genes"]), {g: list(h) for g, h in arr["hits"].items()}
+    r = rng.random()
+    label = []
+    if r < 0.5 or len(genes) < 2:
+        for gid in rng.sample([g for g, _ in genes], min(len(genes), rng.choice([1, 1, 2]))):
+            mutate_gene_hits(rng, hits, gid, profs)
+        label.append("hits")
+    elif r < 0.6:
+        first, second = rng.sample([g for g, _ in genes], 2)
+        h1, h2 = hits.pop(first, None), hits.pop(second, None)
+        if h2 is not None:
+            hits[first] = h2
+        if h1 is not None:
+            hits[second] = h1
+        label.append("swap")
+    elif r < 0.75:
+        _, circ, genes = gen_layout(rng, cutoff, len([g for g in genes if len(g[1]) == 1]) or 1)
+        label.append("move")
+    elif r < 0.83:
+        victim = rng.choice(genes)
+        genes.remove(victim)
+        label.append("drop")
+    elif r < 0.9:
+        _, circ, genes = gen_layout(rng, cutoff)
+        hits = gen_hits(rng, genes, SCORES, prefer=profs)
+        label.append("fresh")
+    elif r < 0.95:
+        rng.shuffle(genes)
+        keys = list(hits)
+        rng.shuffle(keys)
+        hits = {k: hits[k] for k in keys}
+        label.append("reorder")
+    else:
+        label.append("same")
+    known = {g for g, _ in genes}
+    hits = {g: h for g, h in hits.items() if g in known}
+    if rng.random() < 0.2 and "hits" not in label:
+        mutate_gene_hits(rng, hits, rng.choice(sorted(known)), profs)
+        label.append("hits")
+    return {"circ": circ, "genes": genes, "hits": hits, "change": "+".join(label)}
+
+
+def eval_order(rng, arr):
+    """ which genes are asked, in which order """
+    genes = [g for g, _ in arr["genes"]]
+    start = {g: min(p[0] for p in parts) for g, parts in arr["genes"]}
+    with_hits = sorted((g for g in genes if g in arr["hits"]), key=lambda g: start[g])
+    r = rng.random()
+    if r < 0.4 and with_hits:
+        return with_hits, "position"            # what apply_cluster_rules does
+    if r < 0.52 and with_hits:
+        return with_hits[::-1], "reverse"
+    if r < 0.68:
+        order = genes[:]
+        rng.shuffle(order)
+        return order, "shuffled"
+    if r < 0.86:
+        return [rng.choice(genes)], "single"
+    order = rng.sample(genes, rng.randint(1, len(genes)))
+    return order, "subset"
+
+
+class HistoryRunner:
+    """ runs a history document on the implementation.  The document is self-contained (rule text or constructor
+        tree, cutoff, arrangements, evaluations), so that a failing history can be re-run, shrunk and replayed. """
+
+    def __init__(self, names):
+        self.names = names
+
+    def make_rule(self, doc):
+        """ -> (detect function(name, features, results, circ), conditions object, rule or None) """
+        from antismash.common.hmm_rule_parser import rule_parser as rp
+        if doc.get("rule_text") is not None:
+            rule = rp.Parser(doc["rule_text"], set(self.names), {"cat"}).rules[0]
+            rule.cutoff = doc["cutoff"]         # the way Ruleset applies its multipliers: an attribute of the rule object
+            conditions = rule.conditions
+        else:
+            conditions = build(doc["tree"])
+            try:
+                rule = rp.DetectionRule("r", "cat", doc["cutoff"], 0, conditions)
+            except ValueError:
+                rule = None
+        if rule is not None:
+            return rule.detect, conditions, rule
+        cutoff = doc["cutoff"]
+
+        def detect(name, features, results, circ):
+            return conditions.get_satisfied(rp.Details(name, features, results, cutoff, circ))
+        return detect, conditions, None
+
+    def run(self, doc, keep=None):
+        """ evaluates the (kept) evaluations of the history with ONE rule object -> (tree, [encoded answers]) """
+        from antismash.common.hmm_rule_parser.structures import ProfileHit
+        detect, conditions, _rule = self.make_rule(doc)
+        tree = reflect(conditions, self.names)
+        features, results, feature_objs, hit_lists = {}, {}, {}, {}
+        outs = []
+        current = None
+        for index, (arr_idx, gid) in enumerate(doc["evaluations"]):
+            if keep is not None and index not in keep:
+                continue
+            if arr_idx != current:
+                current = arr_idx
+                arr = doc["arrangements"][arr_idx]
+                genes = [(g, [tuple(p) for p in parts]) for g, parts in arr["genes"]]
+                hits = {int(g): [tuple(h) for h in hs] for g, hs in arr["hits"].items()}
+                if doc["inplace"]:
+                    # the very same dict, feature and list objects, changed in place (a caller re-running detect()
+                    # after its hits changed)
+                    features.clear()
+                    for g, parts in genes:
+                        obj = feature_objs.setdefault(g, types.SimpleNamespace(location=None))
+                        obj.location = mk_location(parts)
+                        features[f"g{g}"] = obj
+                    results.clear()
+                    for g, hs in hits.items():
+                        lst = hit_lists.setdefault(g, [])
+                        lst[:] = [ProfileHit(f"g{g}", pname(p), s2 / 2, 1e-10) for p, s2 in hs]
+                        results[f"g{g}"] = lst
+                else:
+                    features = {f"g{g}": types.SimpleNamespace(location=mk_location(parts)) for g, parts in genes}
+                    results = {f"g{g}": [ProfileHit(f"g{g}", pname(p), s2 / 2, 1e-10) for p, s2 in hs]
+                               for g, hs in hits.items()}
+            try:
+                out = enc_result(detect(f"g{gid}", features, results, arr["circ"]), self.names)
+            except Exception as exc:  # pylint: disable=broad-except
+                out = [-1, err_code(exc)]
+            outs.append(out)
+        after = reflect(conditions, self.names)
+        return tree, outs, after
+
+
+def history_flat(doc, tree, fn):
+    flat = [PROP, fn, len(doc["evaluations"])]
+    for arr_idx, gid in doc["evaluations"]:
+        arr = doc["arrangements"][arr_idx]
+        flat += [gid] + enc_ctx(doc["cutoff"], arr["circ"], arr["genes"], {int(g): h for g, h in arr["hits"].items()})
+    return flat + enc_tree(tree)
+
+
+def split_results(out):
+    """ [n, res1..., res2...] -> [res1, res2, ...] (each res: met, matches, ancillary - or -1, error code) """
+    parts, i = [], 1
+    for _ in range(out[0]):
+        j = i
+        if out[j] < 0:
+            j += 2
+        else:
+            j += 2 + out[j + 1]
+            n_anc = out[j]
+            j += 1
+            for _ in range(n_anc):
+                j += 2 + out[j + 1]
+        parts.append(out[i:j])
+        i = j
+    if i != len(out):
+        raise ValueError("trailing data in a history result")
+    return parts
+
+
+def gen_history_doc(rng, trees, strict_trees, names, runner):
+    """ -> history document or None (rule refused by parser/constructors) """
+    from antismash.common.hmm_rule_parser import rule_parser as rp
+    r = rng.random()
+    directed = r < 0.35
+    if directed:
+        tree = directed_tree(rng)
+    elif r < 0.75:
+        tree = ("group", False, strict_trees.items(rng.choice([0, 1, 2, 2]), False))
+    else:
+        tree = trees.cond(rng.choice([1, 2, 3]), False)
+        if tree[0] not in ("group", "cds"):
+            tree = ("group", False, [("c", tree)])
+    parsed = (directed or r < 0.75) and rng.random() < 0.85
+    cutoff = rng.choice([1, 5, 20, 20, 50, 1000])
+    doc = {"cutoff": cutoff, "inplace": rng.random() < 0.4, "directed": directed}
+    if parsed:
+        doc["rule_text"] = f"RULE r CATEGORY cat CUTOFF 1 NEIGHBOURHOOD 1 CONDITIONS {items_text(tree[2])}"
+        doc["tree"] = None
+    else:
+        doc["rule_text"] = None
+        doc["tree"] = tree
+    try:
+        _detect, conditions, _rule = runner.make_rule(doc)
+    except (ValueError, rp.RuleSyntaxError):
+        return None
+    tree = reflect(conditions, names)
+    profs = sorted(tree_profiles(tree))
+    # first arrangement; directed histories keep the genes close together so that neighbours decide
+    n_genes = rng.choice([2, 2, 3, 3, 4]) if directed else None
+    _, circ, genes = gen_layout(rng, cutoff, n_genes)
+    hits = gen_hits(rng, genes, SCORES, prefer=profs)
+    arrangements = [{"circ": circ, "genes": genes, "hits": hits, "change": "first"}]
+    for _ in range(rng.choice([1, 1, 2, 2, 3])):
+        arrangements.append(next_arrangement(rng, arrangements[-1], cutoff, profs))
+    evaluations, orders = [], []
+    for idx, arr in enumerate(arrangements):
+        order, how = eval_order(rng, arr)
+        orders.append(how)
+        evaluations += [(idx, gid) for gid in order]
+    doc.update({"arrangements": arrangements, "evaluations": evaluations, "orders": orders, "reflected_tree": tree})
+    return doc
+
+
+def shrink_history(runner, doc, k, wanted):
+    """ smallest sub-history (greedy) that still makes evaluation k answer something else than `wanted` """
+    keep = list(range(k))
+
+    def fails(indices):
+        _t, outs, _a = runner.run(doc, keep=set(indices) | {k})
+        return outs[-1] != wanted
+    for j in list(keep):
+        trial = [i for i in keep if i != j]
+        if fails(trial):
+            keep = trial
+    return keep
+
+
+def history_stream(chk, rng, trees, names, n_histories):
+    """ the history case family at the level of DetectionRule.detect """
+    runner = HistoryRunner(names)
+    strict_trees = Tree(rng, strict=True)
+    cases, impl_outs, docs = [], [], []
+    while len(cases) < n_histories:
+        doc = gen_history_doc(rng, trees, strict_trees, names, runner)
+        if doc is None:
+            chk.count("history_rule_rejected")
+            continue
+        tree, outs, after = runner.run(doc)
+        if tree != doc["reflected_tree"]:
+            raise AssertionError("reflected tree not reproducible")
+        if after != tree:
+            chk.violation("counterexample", "evaluating a rule changed the rule's own condition tree",
+                          {"theorem_or_correspondence": "rule object unchanged by detect()", "input": doc,
+                           "tree_before": tree, "tree_after": after})
+        flat = history_flat(doc, tree, 5)
+        cases.append(flat)
+        impl_outs.append([len(outs)] + [x for o in outs for x in o])
+        docs.append(doc)
+        chk.count("histories")
+        chk.count("history_parsed_rule" if doc["rule_text"] is not None else "history_constructor_rule")
+        chk.count("history_inplace_objects" if doc["inplace"] else "history_fresh_objects")
+        if doc["directed"]:
+            chk.count("history_directed")
+        if has_kind(tree, "cds"):
+            chk.count("history_with_cds")
+        for arr in doc["arrangements"][1:]:
+            chk.count("history_change_" + arr["change"])
+        for how in doc["orders"]:
+            chk.count("history_order_" + how)
+        chk.count("history_arrangements_%d" % len(doc["arrangements"]))
+        # non-trivial: the same gene name is asked again in a later arrangement and the answer differs although the
+        # gene's own hits are the same (so something around it decided)
+        last, flipped = {}, False
+        for (arr_idx, gid), out in zip(doc["evaluations"], outs):
+            own = doc["arrangements"][arr_idx]["hits"].get(gid)
+            if gid in last and last[gid][0] != arr_idx:
+                if last[gid][1] != out:
+                    chk.count("history_answer_changed_for_gene_name")
+                    if last[gid][2] == own:
+                        chk.count("history_answer_changed_own_hits_same")
+                        flipped = True
+            last[gid] = (arr_idx, out, own)
+        for (arr_idx, gid), out in zip(doc["evaluations"], outs):
+            chk.note_case([flat[0], 5, len(cases), arr_idx, gid] + flat[2:40], flipped, None)
+            if out[0] < 0:
+                chk.count("history_error_" + common.ERR_NAME.get(out[1], str(out[1])))
+        if flipped and len(chk.samples) < 6 and rng.random() < 0.02:
+            chk.samples.append({"history": doc, "implementation": outs})
+    # ---- verdict of the specification at every position (fn 6), first differing evaluation, shrunk
+    spec_outs = common.run_driver([[c[0], 6] + c[2:] for c in cases])
+    chk.extra["history_spec_verdicts"] = sum(c[2] for c in cases)
+    bad = [i for i, (s, o) in enumerate(zip(spec_outs, impl_outs)) if s != o]
+    chk.extra["history_spec_failures"] = len(bad)
+    if bad:
+        bad.sort(key=lambda i: len(cases[i]))
+        i = bad[0]
+        doc = docs[i]
+        spec_parts = split_results(spec_outs[i])
+        impl_parts = split_results(impl_outs[i])
+        k = next(j for j, (a, b) in enumerate(zip(spec_parts, impl_parts)) if a != b)
+        keep = shrink_history(runner, doc, k, spec_parts[k])
+        _t, alone, _a = runner.run(doc, keep={k})
+        arr_idx, gid = doc["evaluations"][k]
+        if alone[0] == spec_parts[k]:
+            what = (f"history dependence: evaluation #{k} (gene g{gid} of arrangement {arr_idx}) answers {impl_parts[k]} after "
+                    f"the earlier evaluations {keep} on the same rule object, but {alone[0]} (= specification) when a freshly "
+                    "built rule object is asked the same question alone")
+        else:
+            what = (f"evaluation #{k} (gene g{gid} of arrangement {arr_idx}) answers {impl_parts[k]}, the specification says "
+                    f"{spec_parts[k]} (also without history: {alone[0]})")
+        minimal = dict(doc)
+        minimal["evaluations"] = [doc["evaluations"][j] for j in keep + [k]]
+        chk.violation("counterexample", f"DetectionRule.detect over a history (one rule object, {len(bad)} failing histories): " + what,
+                      {"theorem_or_correspondence": "C01_history_meaning / C01_history_independent vs DetectionRule.detect",
+                       "function": 5, "flat": cases[i], "implementation": impl_outs[i], "specification": spec_outs[i],
+                       "rule": doc["rule_text"] or tree_text(doc["reflected_tree"]), "tree": doc["reflected_tree"],
+                       "first_differing_evaluation": {"index": k, "arrangement": arr_idx, "gene": f"g{gid}",
+                                                      "implementation_in_history": impl_parts[k],
+                                                      "specification": spec_parts[k],
+                                                      "implementation_alone_on_fresh_rule": alone[0]},
+                       "minimal_history": {"evaluations_kept": keep + [k],
+                                           "arrangements": {a: doc["arrangements"][a] for a in
+                                                            sorted({doc["evaluations"][j][0] for j in keep + [k]})},
+                                           "sequence": [f"arrangement {a}: detect(g{g})" for a, g in minimal["evaluations"]]},
+                       "input": doc, "failing_histories": len(bad)})
+    # ---- faithful model over the history (fn 5) ...
+    model_outs = common.correspondence(chk, cases, impl_outs, label="history of detect() calls on one rule object: model vs implementation",
+                                       describe=lambda flat: {"function": "DetectionRule.detect x history", "payload": flat[2:]})
+    # ---- ... and C01_history_run observed: fn 5 = concatenation of fn 1 over the evaluations taken alone
+    singles, owners = [], []
+    for i, doc in enumerate(docs):
+        etree = enc_tree(doc["reflected_tree"])
+        for arr_idx, gid in doc["evaluations"]:
+            arr = doc["arrangements"][arr_idx]
+            singles.append([PROP, 1] + enc_ctx(doc["cutoff"], arr["circ"], arr["genes"], arr["hits"]) + etree + [gid])
+            owners.append(i)
+    single_outs = common.run_driver(singles)
+    glued = {}
+    for owner, out in zip(owners, single_outs):
+        glued.setdefault(owner, []).extend(out)
+    differ = [i for i in range(len(docs)) if [len(docs[i]["evaluations"])] + glued.get(i, []) != model_outs[i]]
+    chk.extra["history_fn5_vs_fn1_differ"] = len(differ)
+    if differ:
+        chk.violation("broken-correspondence", "fn 5 (history run) differs from fn 1 on the single evaluations although "
+                      "C01_history_run proves them equal", {"theorem_or_correspondence": "C01_history_run", "flat": cases[differ[0]]})
+    chk.crosscheck_vm(cases, model_outs, k=40 if chk.tier == "quick" else 300)
+    return len(cases)
+
+
+def apply_history_stream(chk, rng, names, n_histories):
+    """ the same rule OBJECTS (one rule text with 1-2 rules, parsed once) applied to several records that share
+        their gene names, through the real entry points: cluster_prediction.apply_cluster_rules on real secmet
+        Records and, for a part of the histories, detect_protoclusters_and_signatures with a Ruleset built once and
+        dynamic profiles (what hmm_detection.run_on_record does for every record of the input).  rule.detect is
+        wrapped to record the arguments and the answer of every call. """
+    import detect_util
+    from antismash.common.hmm_rule_parser import rule_parser as rp, cluster_prediction
+    from antismash.common.hmm_rule_parser.structures import ProfileHit, DynamicProfile, DynamicHit, Multipliers
+    from antismash.common.hmm_rule_parser.test.helpers import create_ruleset
+    strict_trees = Tree(rng, strict=True)
+    plain_detect = rp.DetectionRule.detect
+    det_cases, det_impl, det_docs = [], [], []
+    app_cases, app_impl, app_docs = [], [], []
+    n_done = 0
+    while n_done < n_histories:
+        n_rules = rng.choice([1, 1, 2])
+        gen_trees = [directed_tree(rng) if rng.random() < 0.45 else
+                     ("group", False, strict_trees.items(rng.choice([0, 1, 2]), False)) for _ in range(n_rules)]
+        text = "\n".join(f"RULE r{i} CATEGORY cat CUTOFF 1 NEIGHBOURHOOD 1 CONDITIONS {items_text(t[2])}"
+                         for i, t in enumerate(gen_trees))
+        try:
+            rules = rp.Parser(text, set(names), {"cat"}).rules
+        except (ValueError, rp.RuleSyntaxError):
+            chk.count("apply_history_rule_rejected")
+            continue
+        pipeline = rng.random() < 0.35
+        # the distances of the rules: either set on the rule objects (as Ruleset does), or - in a part of the pipeline
+        # histories - left as parsed (CUTOFF 1 = 1000) and scaled ONCE by the Ruleset's multipliers (what
+        # hmm_detection.get_ruleset does for fungal records).  `cutoffs` is what each rule's cutoff has to be for the
+        # whole history; the model is given these values, not whatever the attribute holds at call time.
+        multiplier = rng.choice([0.005, 0.02, 0.05, 0.5]) if pipeline and rng.random() < 0.3 else None
+        if multiplier is None:
+            cutoff = rng.choice([5, 20, 20, 50, 1000])
+            cutoffs = [cutoff] + [cutoff if rng.random() < 0.5 else rng.choice([5, 20, 50])] * (n_rules - 1)
+            for rule, value in zip(rules, cutoffs):
+                rule.cutoff = value
+                rule.neighbourhood = rng.choice([0, 5, 20])
+        else:
+            cutoff = int(1000 * multiplier)
+            cutoffs = [cutoff] * n_rules
+        reflected = [reflect(rule.conditions, names) for rule in rules]
+        profs = sorted(set().union(*[tree_profiles(t) for t in reflected]))
+        current_hits = {}
+
+        def mk_profile(profile, _hits=current_hits):
+            def find(_record, _hmmer_hits):
+                return {gene: [DynamicHit(gene, profile, bitscore=s2 / 2) for p, s2 in hs if pname(p) == profile]
+                        for gene, hs in _hits.items() if any(pname(p) == profile for p, _ in hs)}
+            return DynamicProfile(profile, "d", find)
+        ruleset = None
+        if pipeline:
+            try:
+                if multiplier is None:
+                    ruleset = create_ruleset(rules, dynamic_profiles={p: mk_profile(p) for p in names})
+                else:
+                    ruleset = cluster_prediction.Ruleset(tuple(rules), {}, "dummy_seeds", {"cat"}, tool="test_tool",
+                                                         dynamic_profiles={p: mk_profile(p) for p in names},
+                                                         equivalence_groups=set(),
+                                                         multipliers=Multipliers(multiplier, 1.0))
+                    chk.count("apply_history_ruleset_multiplier")
+            except ValueError:
+                chk.count("apply_history_ruleset_rejected")
+                continue
+        calls = [[] for _ in rules]        # per rule: (record index, gene, ctx flat, answer)
+        parts_of = {}
+        records = []                        # per record: {"arrangement", "length", "outs": per rule}
+        index_of = {rule.name: index for index, rule in enumerate(rules)}
+
+        # DetectionRule.detect is wrapped at class level for the duration of this history (by rule name, so that it
+        # also sees calls on copies of the rule objects, should a Ruleset ever hold copies)
+        def spy(self, name, feats, res, circular_origin=None):
+            index = index_of[self.name]
+            ctx = enc_ctx(cutoffs[index], circular_origin, [(int(f[1:]), parts_of[int(f[1:])]) for f in feats],
+                          {int(k[1:]): [(names[h.query_id], int(round(h.bitscore * 2))) for h in v] for k, v in res.items()})
+            try:
+                answer = plain_detect(self, name, feats, res, circular_origin=circular_origin)
+            except Exception as exc:  # pylint: disable=broad-except
+                calls[index].append((len(records), int(name[1:]), ctx, [-1, err_code(exc)]))
+                raise
+            calls[index].append((len(records), int(name[1:]), ctx, enc_result(answer, names)))
+            return answer
+        rp.DetectionRule.detect = spy
+        try:
+            _, circ, genes = gen_layout(rng, cutoff)
+            arr = {"circ": circ, "genes": genes, "hits": gen_hits(rng, genes, SCORES, prefer=profs), "change": "first"}
+            for _ in range(rng.choice([2, 2, 3, 4])):
+                end = max(e for _, parts in arr["genes"] for _, e, _ in parts)
+                length = arr["circ"] if arr["circ"] else end + rng.choice([0, 1, cutoff, cutoff + 5])
+                try:
+                    record = detect_util.make_record(length, bool(arr["circ"]), [(f"g{g}", parts) for g, parts in arr["genes"]])
+                except Exception:  # pylint: disable=broad-except
+                    chk.count("apply_history_record_rejected")
+                    arr = next_arrangement(rng, arr, cutoff, profs)
+                    continue
+                parts_of.clear()
+                parts_of.update(dict(arr["genes"]))
+                outs = None
+                if pipeline:
+                    current_hits.clear()
+                    current_hits.update({f"g{g}": hs for g, hs in arr["hits"].items() if hs})
+                    if multiplier is None and records and rng.random() < 0.3:
+                        # the rule objects move into a new Ruleset between two records (unit multipliers: nothing may change)
+                        ruleset = ruleset.copy_with_replacements(rules=list(ruleset.rules))
+                        chk.count("apply_history_ruleset_rewrapped")
+                    try:
+                        cluster_prediction.detect_protoclusters_and_signatures(record, ruleset)
+                    except Exception as exc:  # pylint: disable=broad-except
+                        # everything after apply_cluster_rules (protocluster formation) is C03's subject
+                        chk.count("apply_history_pipeline_error_" + type(exc).__name__)
+                else:
+                    results = {f"g{g}": [ProfileHit(f"g{g}", pname(p), s2 / 2, 1e-10) for p, s2 in hs]
+                               for g, hs in arr["hits"].items()}
+                    try:
+                        domains, type_hits = cluster_prediction.apply_cluster_rules(record, results, rules)
+                        outs = []
+                        for rule in rules:
+                            recorded = {int(g[1:]): sorted(names[m] for m in by_rule[rule.name])
+                                        for g, by_rule in domains.items() if rule.name in by_rule}
+                            out = [len(recorded)]
+                            for gid in sorted(recorded):
+                                out += [gid, len(recorded[gid])] + recorded[gid]
+                            if set(recorded) != {int(g[1:]) for g in type_hits.get(rule.name, set())}:
+                                out.append(-2)
+                            outs.append(out)
+                    except Exception as exc:  # pylint: disable=broad-except
+                        chk.count("apply_history_error_" + type(exc).__name__)
+                        outs = [[-1, err_code(exc)] for _ in rules]
+                records.append({"arrangement": arr, "length": length, "outs": outs})
+                arr = next_arrangement(rng, arr, cutoff, profs)
+        finally:
+            rp.DetectionRule.detect = plain_detect
+        if len(records) < 2:
+            continue
+        n_done += 1
+        chk.count("apply_histories_pipeline" if pipeline else "apply_histories_direct")
+        chk.count("apply_history_rules_%d" % n_rules)
+        for index, rule in enumerate(rules):
+            etree = enc_tree(reflected[index])
+            after = reflect(rule.conditions, names)
+            doc = {"rule_text": text, "rule_index": index, "cutoff": cutoffs[index], "cutoff_attribute_at_end": rule.cutoff,
+                   "ruleset_cutoff_multiplier": multiplier, "tree": reflected[index],
+                   "entry_point": "detect_protoclusters_and_signatures" if pipeline else "apply_cluster_rules",
+                   "records": [{"arrangement": r["arrangement"], "length": r["length"]} for r in records],
+                   "detect_calls": [(rec, f"g{gid}") for rec, gid, _, _ in calls[index]]}
+            if after != reflected[index]:
+                chk.violation("counterexample", "applying a rule to records changed the rule's own condition tree",
+                              {"theorem_or_correspondence": "rule object unchanged by detect()", "input": doc,
+                               "tree_before": reflected[index], "tree_after": after})
+            if calls[index]:
+                flat = [PROP, 5, len(calls[index])]
+                for _rec, gid, ctx, _answer in calls[index]:
+                    flat += [gid] + ctx
+                det_cases.append(flat + etree)
+                det_impl.append([len(calls[index])] + [x for c in calls[index] for x in c[3]])
+                det_docs.append(doc)
+                for _rec, gid, ctx, _answer in calls[index]:
+                    chk.note_case([PROP, 5, n_done, index, gid] + ctx[:40], len(records) >= 2, None)
+                chk.count("apply_history_detect_calls", len(calls[index]))
+            if not pipeline:
+                flat = [PROP, 7, len(records)]
+                for rec_index in range(len(records)):
+                    mine = [c for c in calls[index] if c[0] == rec_index]
+                    flat.append(len(mine))
+                    for _rec, gid, ctx, _answer in mine:
+                        flat += [gid] + ctx
+                app_cases.append(flat + etree)
+                app_impl.append([len(records)] + [x for r in records for x in r["outs"][index]])
+                app_docs.append(doc)
+                chk.count("apply_history_records", len(records))
+    # ---- every detect() call seen on the way, in call order, against the specification and the model
+    spec_outs = common.run_driver([[c[0], 6] + c[2:] for c in det_cases])
+    bad = [i for i, (s, o) in enumerate(zip(spec_outs, det_impl)) if s != o]
+    chk.extra["apply_history_detect_spec_failures"] = len(bad)
+    if bad:
+        bad.sort(key=lambda i: len(det_cases[i]))
+        i = bad[0]
+        doc = det_docs[i]
+        spec_parts, impl_parts = split_results(spec_outs[i]), split_results(det_impl[i])
+        k = next(j for j, (a, b) in enumerate(zip(spec_parts, impl_parts)) if a != b)
+        rec, gene = doc["detect_calls"][k]
+        chk.violation("counterexample", f"{doc['entry_point']} over several records with the same rule objects ({len(bad)} failing "
+                      f"histories): detect call #{k} (gene {gene} of record {rec}) answered {impl_parts[k]}, the specification for "
+                      f"that rule, arrangement and gene is {spec_parts[k]}",
+                      {"theorem_or_correspondence": "C01_history_meaning vs rule.detect inside " + doc["entry_point"],
+                       "function": 5, "flat": det_cases[i], "implementation": det_impl[i], "specification": spec_outs[i],
+                       "rule": doc["rule_text"], "tree": doc["tree"],
+                       "first_differing_evaluation": {"index": k, "record": rec, "gene": gene,
+                                                      "implementation_in_history": impl_parts[k], "specification": spec_parts[k]},
+                       "input": doc, "failing_histories": len(bad)})
+    det_model = common.correspondence(chk, det_cases, det_impl,
+                                      label="rule.detect calls inside apply_cluster_rules over several records: model vs implementation",
+                                      describe=lambda flat: {"function": "DetectionRule.detect x records", "payload": flat[2:]})
+    # ---- what apply_cluster_rules recorded per record (fn 7 model, fn 8 specification)
+    a_spec = common.run_driver([[c[0], 8] + c[2:] for c in app_cases])
+    bad = [i for i, (s, o) in enumerate(zip(a_spec, app_impl)) if s != o]
+    chk.extra["apply_history_spec_failures"] = len(bad)
+    if bad:
+        bad.sort(key=lambda i: len(app_cases[i]))
+        i = bad[0]
+        chk.violation("counterexample", f"apply_cluster_rules over several records with the same rule objects: the genes/profiles "
+                      f"recorded for rule r{app_docs[i]['rule_index']} differ from recorded_spec of the records taken alone "
+                      f"({len(bad)} failing histories)",
+                      {"theorem_or_correspondence": "C01_apply_history vs apply_cluster_rules", "function": 7, "flat": app_cases[i],
+                       "implementation": app_impl[i], "specification": a_spec[i], "rule": app_docs[i]["rule_text"],
+                       "input": app_docs[i], "failing_histories": len(bad)})
+    a_model = common.correspondence(chk, app_cases, app_impl,
+                                    label="apply_cluster_rules over several records: model vs implementation",
+                                    describe=lambda flat: {"function": "apply_cluster_rules x records", "payload": flat[2:]})
+    differ = [i for i, (m, s) in enumerate(zip(a_model, a_spec)) if m != s]
+    chk.extra["apply_history_model_vs_spec_differ"] = len(differ)
+    if differ:
+        chk.violation("broken-correspondence", "apply_history model and specification differ",
+                      {"theorem_or_correspondence": "C01_apply_history", "flat": app_cases[differ[0]]})
+    chk.crosscheck_vm(det_cases, det_model, k=20 if chk.tier == "quick" else 150)
+    chk.crosscheck_vm(app_cases, a_model, k=20 if chk.tier == "quick" else 150)
+    return n_done
+
+
+RESCALE_CLASS = "ruleset_rescales_shared_rules"
+DYADIC = [(1, 1), (1, 2), (3, 2), (2, 1), (1, 4), (3, 1)]
+
+
+def cutoff_life_stream(chk, rng, n_lives):
+    """ hidden state OUTSIDE the evaluator: the cutoff / neighbourhood attributes of a rule object are multiplied in
+        place by the parser and by every Ruleset construction (Ruleset(...), Ruleset.from_files, copy_with_replacements).
+        The life of one rule object (parse multiplier, then a sequence of Ruleset constructions) is compared with the
+        model [cutoff_life] (fn 9); outside the finding class (at most one non-unit multiplier in the whole life) the
+        attribute must be text * that multiplier from then on.  The finding class (a second non-unit multiplier applied
+        to an object that was already scaled) is attributed to finding C01-H1 while it is listed as known. """
+    import shutil
+    import tempfile
+    from antismash.common.hmm_rule_parser import rule_parser as rp, cluster_prediction
+    from antismash.common.hmm_rule_parser.structures import Multipliers, DynamicProfile
+    known = {f["class"]: f for f in common.load_known_findings("C01") if f.get("status") == "known"}
+    dynamic = {"p0": DynamicProfile("p0", "d", lambda _record, _hits: {})}
+
+    def mult(m):
+        return Multipliers(m[0] / m[1], m[0] / m[1])
+
+    def life(kb, m0, ms, how):
+        """ -> values seen through the newest holder after parsing and after every construction (cutoffs, neighbourhoods),
+            the holders whose view changed after they were created, and whether a plain copy kept the values """
+        text = f"RULE r CATEGORY cat CUTOFF {kb} NEIGHBOURHOOD {kb} CONDITIONS p0"
+        rules = rp.Parser(text, {"p0"}, {"cat"}, multipliers=mult(m0)).rules
+        holders = [("parsed rule object", rules[0], rules[0].cutoff, rules[0].neighbourhood)]
+        cutoffs, neighbourhoods = [rules[0].cutoff], [rules[0].neighbourhood]
+        ruleset, current = None, rules
+        for number, (m, step) in enumerate(zip(ms, how)):
+            if step == "copy" and ruleset is not None:
+                ruleset = ruleset.copy_with_replacements(rules=list(ruleset.rules), multipliers=mult(m))
+            else:
+                ruleset = cluster_prediction.Ruleset(tuple(current), {}, "seeds", {"cat"}, tool="t", dynamic_profiles=dynamic,
+                                                     equivalence_groups=set(), multipliers=mult(m))
+            current = list(ruleset.rules)
+            rule = ruleset.rules[0]
+            cutoffs.append(rule.cutoff)
+            neighbourhoods.append(rule.neighbourhood)
+            holders.append((f"ruleset #{number} ({step}, x{m[0]}/{m[1]})", rule, rule.cutoff, rule.neighbourhood))
+        changed = [f"{name}: {(c, n)} -> {(obj.cutoff, obj.neighbourhood)}" for name, obj, c, n in holders
+                   if (obj.cutoff, obj.neighbourhood) != (c, n)]
+        kept = None
+        if ruleset is not None:
+            plain = ruleset.copy_with_replacements(tool="t2")
+            kept = (plain.rules[0].cutoff, plain.rules[0].neighbourhood) == (cutoffs[-1], neighbourhoods[-1])
+        return cutoffs, neighbourhoods, changed, kept
+    cases, impl_outs, metas = [], [], []
+    for _ in range(n_lives):
+        kb = rng.choice([1, 2, 5, 10, 20, 45])
+        n_sets = rng.choice([0, 1, 1, 2, 3])
+        if rng.random() < 0.7:
+            # at most one non-unit multiplier in the whole life
+            all_ms = [(1, 1)] * (n_sets + 1)
+            if rng.random() < 0.7:
+                all_ms[rng.randrange(len(all_ms))] = rng.choice(DYADIC[1:])
+        else:
+            all_ms = [rng.choice(DYADIC) for _ in range(n_sets + 1)]
+        m0, ms = all_ms[0], all_ms[1:]
+        how = [rng.choice(["new", "copy"]) for _ in ms]
+        cutoffs, neighbourhoods, changed, kept = life(kb, m0, ms, how)
+        non_unit = [m for m in all_ms if m != (1, 1)]
+        # the finding class: some Ruleset of the life has a non-unit multiplier (then the objects it was given, which
+        # others still hold, are rescaled; and copying that Ruleset rescales again)
+        in_class = any(m != (1, 1) for m in ms)
+        chk.count("cutoff_life_in_class_" + RESCALE_CLASS if in_class else "cutoff_life_outside_class")
+        meta = {"text": f"CUTOFF {kb} NEIGHBOURHOOD {kb}", "parse_multiplier": m0, "ruleset_multipliers": ms,
+                "constructions": how, "cutoffs": cutoffs, "neighbourhoods": neighbourhoods,
+                "holders_whose_values_changed_later": changed, "plain_copy_kept_values": kept}
+        failures = []
+        if changed:
+            failures.append("a later Ruleset construction changed the distances seen by an earlier holder of the rule: " + "; ".join(changed))
+        if kept is False:
+            failures.append("copy_with_replacements without new rules or multipliers returned rules with other distances")
+        if failures:
+            if in_class and RESCALE_CLASS in known:
+                chk.count("known_" + RESCALE_CLASS)
+            else:
+                chk.violation("counterexample", "Ruleset construction and rule objects: " + failures[0],
+                              {"theorem_or_correspondence": "C01_cutoff_unit_multipliers (guard) / finding class " + RESCALE_CLASS,
+                               "flat": [PROP, 9, kb, m0[0], m0[1], len(ms)] + [x for m in ms for x in m],
+                               "implementation": cutoffs, "failures": failures, "input": meta})
+        for values, what in ((cutoffs, "cutoff"), (neighbourhoods, "neighbourhood")):
+            flat = [PROP, 9, kb, m0[0], m0[1], len(ms)] + [x for m in ms for x in m]
+            cases.append(flat)
+            impl_outs.append([len(values)] + values)
+            metas.append(meta)
+            chk.note_case(flat + [0 if what == "cutoff" else 1], len(non_unit) >= 1, None)
+            if len(non_unit) <= 1:
+                wanted, scaled = [], kb * 1000
+                for m in all_ms:
+                    scaled = scaled * m[0] // m[1]
+                    wanted.append(scaled)
+                if values != wanted:
+                    chk.violation("counterexample", f"the rule's {what} after parsing and Ruleset construction is not text * multiplier",
+                                  {"theorem_or_correspondence": "C01_cutoff_unit_multipliers / single scaling", "flat": flat,
+                                   "implementation": values, "expected": wanted, "input": meta})
+    common.correspondence(chk, cases, impl_outs, label="cutoff attribute over the life of a rule object: model vs implementation",
+                          describe=lambda flat: {"function": "Parser / Ruleset.__post_init__ scaling", "payload": flat[2:]})
+    # the stored witness: the public constructor Ruleset.from_files with non-unit multipliers
+    tmp = tempfile.mkdtemp(prefix="c01_ruleset_")
+    try:
+        for name, text in (("rules.txt", "RULE r CATEGORY cat CUTOFF 10 NEIGHBOURHOOD 4 CONDITIONS p0"), ("sigs.txt", ""),
+                           ("filter.txt", "")):
+            with open(f"{tmp}/{name}", "w") as handle:
+                handle.write(text)
+        ruleset = cluster_prediction.Ruleset.from_files(f"{tmp}/sigs.txt", "seeds", [f"{tmp}/rules.txt"], {"cat"}, f"{tmp}/filter.txt",
+                                                        "t", dynamic_profiles=dynamic, multipliers=Multipliers(1.5, 2.0))
+        got = (ruleset.rules[0].cutoff, ruleset.rules[0].neighbourhood)
+    except Exception as exc:  # pylint: disable=broad-except
+        got = ("error", repr(exc))
+    finally:
+        shutil.rmtree(tmp, ignore_errors=True)
+    chk.extra["ruleset_from_files_witness"] = {"text": "CUTOFF 10 NEIGHBOURHOOD 4", "multipliers": [1.5, 2.0], "got": got,
+                                               "text_times_multiplier": [15000, 8000]}
+    if got == (22500, 16000):
+        if RESCALE_CLASS in known:
+            chk.known(f"{known[RESCALE_CLASS]['id']} class={RESCALE_CLASS}: {known[RESCALE_CLASS]['what_fails']}")
+        else:
+            chk.violation("counterexample", "Ruleset.from_files(multipliers=(1.5, 2.0)) on `CUTOFF 10 NEIGHBOURHOOD 4` yields rules with "
+                          "cutoff 22500 / neighbourhood 16000 (text * multiplier^2): the multipliers are applied by the parser and "
+                          "again, in place on the same rule objects, by Ruleset.__post_init__ (class " + RESCALE_CLASS +
+                          " is not listed as known in known_findings.json)",
+                          {"theorem_or_correspondence": "C01_cutoff_scaled_once_refuted", "flat": [PROP, 9, 10, 3, 2, 1, 3, 2],
+                           "implementation": list(got), "expected": [15000, 8000],
+                           "input": chk.extra["ruleset_from_files_witness"]})
+    elif got != (15000, 8000):
+        chk.violation("counterexample", f"Ruleset.from_files(multipliers=(1.5, 2.0)) on `CUTOFF 10 NEIGHBOURHOOD 4` yields {got}: neither "
+                      "text * multiplier nor the recorded defective value",
+                      {"theorem_or_correspondence": "C01_cutoff_scaled_once_refuted", "flat": [PROP, 9, 10, 3, 2, 1, 3, 2],
+                       "implementation": list(got), "expected": [15000, 8000]})
 
 
 def exhaustive_small():
@@ -461,6 +1288,11 @@ def run(chk):
                       {"theorem_or_correspondence": "C01_rule_domains", "flat": a_cases[i], "model": a_model[i],
                        "specification": a_spec[i], "input": a_inputs[i]})
     chk.crosscheck_vm(a_cases, a_model, k=60 if chk.tier == "quick" else 400)
+
+    # histories: one rule object, several arrangements / records that re-use the gene names
+    chk.extra["histories_detect"] = history_stream(chk, rng, trees, names, 3000 if chk.tier == "quick" else 40000)
+    chk.extra["histories_apply"] = apply_history_stream(chk, rng, names, 600 if chk.tier == "quick" else 8000)
+    cutoff_life_stream(chk, rng, 150 if chk.tier == "quick" else 1500)
     return chk.finish(RULE)
 
 
@@ -468,9 +1300,34 @@ def replay(chk, path):
     import json
     doc = json.load(open(path))
     flat = doc["flat"]
-    spec_fn = {1: 2, 2: 2, 3: 4, 4: 4}.get(flat[1], 2)
-    model_fn = {1: 1, 2: 1, 3: 3, 4: 3}.get(flat[1], 1)
+    spec_fn = {1: 2, 2: 2, 3: 4, 4: 4, 5: 6, 6: 6, 7: 8, 8: 8}.get(flat[1], 2)
+    model_fn = {1: 1, 2: 1, 3: 3, 4: 3, 5: 5, 6: 5, 7: 7, 8: 7}.get(flat[1], 1)
     model, spec = common.run_driver([[flat[0], model_fn] + flat[2:], [flat[0], spec_fn] + flat[2:]])
     print("model:", model, "specification:", spec, "recorded implementation:", doc.get("implementation"))
-    print("decoded input:", json.dumps(doc.get("input"))[:2000])
+    inp = doc.get("input") or {}
+    if flat[1] == 5 and "evaluations" in inp:
+        # a history of detect() calls: run it again on the implementation as it is now (VERIF_REPO), one rule object
+        names = {pname(i): i for i in range(NPROF)}
+        runner = HistoryRunner(names)
+        print("rule:", doc.get("rule"))
+        for idx, arr in enumerate(inp["arrangements"]):
+            print(f"arrangement {idx} ({arr['change']}): circular_origin={arr['circ']} genes={arr['genes']} hits={arr['hits']}")
+        _tree, outs, _after = runner.run(inp)
+        spec_parts = split_results(spec)
+        reproduced = False
+        for k, ((arr_idx, gid), out) in enumerate(zip(inp["evaluations"], outs)):
+            differs = out != spec_parts[k]
+            reproduced |= differs
+            print(f"  #{k} arrangement {arr_idx} detect(g{gid}): implementation {out} specification {spec_parts[k]}"
+                  + ("   <-- DIFFERS" if differs else ""))
+        kept = (doc.get("minimal_history") or {}).get("evaluations_kept")
+        if kept:
+            _tree, outs, _after = runner.run(inp, keep=set(kept))
+            print("minimal history", [f"arrangement {inp['evaluations'][k][0]}: detect(g{inp['evaluations'][k][1]})" for k in kept],
+                  "-> last answer", outs[-1], "specification", spec_parts[kept[-1]])
+            _tree, alone, _after = runner.run(inp, keep={kept[-1]})
+            print("the last evaluation alone on a freshly built rule object ->", alone[0])
+        print("REPRODUCED on the current implementation" if reproduced else "not reproduced on the current implementation")
+        return 0
+    print("decoded input:", json.dumps(inp)[:2000])
     return 0
